@@ -617,6 +617,11 @@ fn catalogue_inner(prop: &str, t: Tier, seed: u64, out: &mut Vec<Entry>) {
                 en.funcs = f.clone();
                 out.push(en);
             }
+            {
+                let mut en = e("lc-ops/term-helpers".into(), t, "nothing (input-free)", "LCTerm conversions and comparisons, LinearCombination::{empty,new,push,is_empty}, LabeledPolynomial accessors".into(), c16::lc_term_helpers);
+                en.funcs = vec!["LCTerm::{from,try_into,eq,is_one}", "LinearCombination::{empty,new,push,is_empty,label}", "LabeledPolynomial::{new,label,polynomial,polynomial_mut,degree_bound,hiding_bound,is_hiding,deref}"];
+                out.push(en);
+            }
             let mut en = e("lc-ops/twin".into(), t, "as lc-ops", "planted off-by-one in the last sequence".into(), || c16::lc_ops(1, true));
             en.twin = true;
             en.funcs = f.clone();
@@ -867,6 +872,10 @@ fn catalogue_inner(prop: &str, t: Tier, seed: u64, out: &mut Vec<Entry>) {
                 let mut en = e("operators/add-assign".into(), t, "accumulator, operand, scalars, all blinding coefficients", "kzg10::Commitment += (f,&D); kzg10/marlin Randomness += (f,&R), += &R; 3 coefficients".into(), move || c08::add_operators(seed));
                 en.funcs = vec!["kzg10::Commitment::add_assign", "kzg10::Randomness::add_assign", "marlin_pc::Randomness::add_assign"];
                 out.push(en);
+                let mut en = e("operators/add-by-value".into(), t, "scalar, all blinding coefficients, evaluation point (PST13)", "kzg10/marlin/pst13 Randomness + &S, + (f,&S), += with a missing shifted part; 2-3 coefficients".into(), move || c08::add_operators_by_value(seed));
+                en.funcs = vec!["kzg10::Randomness::add", "marlin_pc::Randomness::{add,add_assign}", "marlin_pst13_pc::Randomness::{add,add_assign}"];
+                if quick { en.lim.wall_s = 60.0; }
+                out.push(en);
             }
             for nv in if quick { vec![2usize] } else { vec![2usize, 4] } {
                 let c = mk(Size::mv(nv, 1, 0), vec![PolySpec::new(1)]);
@@ -1042,6 +1051,7 @@ fn catalogue_inner(prop: &str, t: Tier, seed: u64, out: &mut Vec<Entry>) {
                 if quick { en.lim.wall_s = 45.0; }
                 out.push(en);
             };
+            add("ligero/unusable-parameters".into(), "rho_inv above, at and below the field's two-adicity (32); OptionalRng with and without a generator (input-free)".into(), Box::new(c17::ligero_unusable_params));
             macro_rules! uni {
                 ($S:ty) => {{
                     let name = <$S as Sch>::NAME;
@@ -1401,6 +1411,12 @@ fn catalogue_inner(prop: &str, t: Tier, seed: u64, out: &mut Vec<Entry>) {
                     en.funcs = f.clone();
                     out.push(en);
                 }
+            }
+            for n in if quick { vec![1usize, 3] } else { vec![1usize, 2, 3, 5] } {
+                let mut en = e(format!("keys/interop-n{}", n), t, "coefficients of two polynomials, point, index-vector values, delta", format!("{} coefficients; as_committer_key, VerifierKey::from(&stream), batch_commit, index_by, proof addition", n), move || c14::key_interop(n, seed));
+                en.funcs = vec!["CommitterKeyStream::{as_committer_key,commit}", "VerifierKey::from(&CommitterKeyStream)", "CommitterKey::{batch_commit,index_by,open}", "EvaluationProof::{add,sum}", "Commitment::size_in_bytes"];
+                if quick { en.lim.wall_s = 45.0; }
+                out.push(en);
             }
             let multis: Vec<(usize, usize, usize)> = if quick { vec![(3, 1, 1), (4, 2, 2), (5, 3, 1), (4, 3, 3)] } else { vec![(3, 1, 1), (4, 2, 2), (5, 3, 1), (6, 3, 2), (8, 2, 3), (7, 4, 1)] };
             for (n, m, k) in multis {
